@@ -2540,3 +2540,268 @@ Proof.
   eexists. exists (fun _ => None), []. do 2 eexists. split; [reflexivity|].
   split; [vm_compute; reflexivity|]. split; [vm_compute; reflexivity|]. vm_compute. discriminate.
 Qed.
+
+(* =========================================================================================== *)
+(* Part 8: merge_chained_comps when the inner conditions make no unknown calls *)
+
+Definition all_names : nat -> bool := fun _ => true.
+
+Lemma framed_all : forall w e, framed all_names w e.
+Proof. intros w e. destruct (eval_frame_all w e all_names (fun _ _ => eq_refl)) as [F _]. exact F. Qed.
+
+Lemma agree_all : forall (en1 en2 : env), (forall y, en1 y = en2 y) -> agree_on all_names en1 en2.
+Proof. intros en1 en2 H y _. apply H. Qed.
+
+Lemma ev_conds_ext : forall w ifs en1 en2 tr, (forall y, en1 y = en2 y) ->
+  ev_conds (eval w) en1 ifs tr = ev_conds (eval w) en2 ifs tr.
+Proof.
+  intros w ifs en1 en2 tr H. apply (ev_conds_frame all_names w ifs); [|apply agree_all, H].
+  apply Forall_forall. intros c _. apply framed_all.
+Qed.
+
+Lemma ev_conds_app : forall w en l1 l2 tr,
+  ev_conds (eval w) en (l1 ++ l2) tr =
+  match ev_conds (eval w) en l1 tr with
+  | Some (true, tr1) => ev_conds (eval w) en l2 tr1
+  | r => r
+  end.
+Proof.
+  induction l1 as [|c l1 IH]; intros l2 tr; cbn [app ev_conds]; [reflexivity|].
+  destruct (eval w c en tr) as [[cv tr1]|]; [|reflexivity]. destruct (truthy cv); [apply IH | reflexivity].
+Qed.
+
+Lemma pure_conds : forall w ifs en, forallb (fun c => negb (effect c)) ifs = true ->
+  exists o, forall tr, ev_conds (eval w) en ifs tr = lift_tr o tr.
+Proof.
+  intros w ifs en H. apply pure_ev_conds. apply Forall_forall. intros c Hc. rewrite forallb_forall in H.
+  specialize (H c Hc). apply negb_true_iff in H. apply (effect_pure w c H).
+Qed.
+
+Definition res_eq (r1 r2 : res) : Prop :=
+  match r1, r2 with
+  | Some (_, a1, t1), Some (_, a2, t2) => a1 = a2 /\ t1 = t2
+  | None, None => True
+  | _, _ => False
+  end.
+
+Section Chained.
+  Variables (w : world) (k : ckind) (x : nat) (elt dval dv' : cx) (ifs_in ifs_out : list cx) (base : env).
+  Hypothesis Hk : k <> CDict.
+  Hypothesis Hpure : forallb (fun c => negb (effect c)) ifs_in = true.
+
+  Let inner := clause_body (eval w) ifs_in (leaf_of (eval w) k (XName x) dv').
+  Let outer := clause_body (eval w) ifs_out (leaf_of (eval w) k elt dval).
+  Let merged := clause_body (eval w) (ifs_in ++ ifs_out) (leaf_of (eval w) k elt dval).
+
+  Definition off_x (e : env) : Prop := forall y, y <> x -> e y = base y.
+
+  Lemma off_x_upd : forall e v, off_x e -> off_x (upd e x v).
+  Proof. intros e v H y Hy. rewrite upd_other by exact Hy. apply H, Hy. Qed.
+
+  Lemma upd_ext : forall e1 e2 v, off_x e1 -> off_x e2 -> forall y, upd e1 x v y = upd e2 x v y.
+  Proof.
+    intros e1 e2 v H1 H2 y. unfold upd. destruct (Nat.eqb y x) eqn:E; [reflexivity|].
+    apply Nat.eqb_neq in E. rewrite (H1 y E), (H2 y E). reflexivity.
+  Qed.
+
+  Lemma outer_step_ext : forall e2 e3 tr acc, (forall y, e2 y = e3 y) ->
+    match leaf_of (eval w) k elt dval e2 tr acc, leaf_of (eval w) k elt dval e3 tr acc with
+    | Some (f2, a2, t2), Some (f3, a3, t3) => f2 = e2 /\ f3 = e3 /\ a2 = a3 /\ t2 = t3
+    | None, None => True
+    | _, _ => False
+    end.
+  Proof.
+    intros e2 e3 tr acc H. unfold leaf_of. rewrite (framed_all w elt e2 e3 tr (agree_all e2 e3 H)).
+    destruct (eval w elt e3 tr) as [[v tr1]|]; [|exact I].
+    destruct k; try (repeat split; reflexivity). contradiction.
+  Qed.
+
+  Lemma chained_items : forall xs e1 e2 e3 tI tr a1 a2, off_x e1 -> off_x e2 -> off_x e3 ->
+    match iter_items inner (TName x) xs e1 tI a1 with
+    | None => iter_items merged (TName x) xs e3 tr a2 = None
+    | Some (_, a1', t') =>
+        t' = tI /\ exists ys, a1' = a1 ++ ys
+          /\ res_eq (iter_items merged (TName x) xs e3 tr a2) (iter_items outer (TName x) ys e2 tr a2)
+    end.
+  Proof.
+    induction xs as [|x0 xs IH]; intros e1 e2 e3 tI tr a1 a2 H1 H2 H3; cbn [iter_items bind].
+    - split; [reflexivity|]. exists []. rewrite app_nil_r. split; [reflexivity|]. cbn. auto.
+    - destruct (pure_conds w ifs_in (upd e1 x x0) Hpure) as [oc Ec].
+      assert (Ec3 : forall t, ev_conds (eval w) (upd e3 x x0) ifs_in t = lift_tr oc t).
+      { intros t. rewrite <- Ec. apply ev_conds_ext. apply upd_ext; assumption. }
+      assert (HI : inner (upd e1 x x0) tI a1 =
+                   match oc with
+                   | Some true => Some (upd e1 x x0, a1 ++ [x0], tI)
+                   | Some false => Some (upd e1 x x0, a1, tI)
+                   | None => None
+                   end).
+      { unfold inner, clause_body. rewrite Ec. destruct oc as [[]|]; cbn [lift_tr]; try reflexivity.
+        unfold leaf_of. cbn [eval]. rewrite upd_same. destruct k; try reflexivity. contradiction. }
+      assert (HM : merged (upd e3 x x0) tr a2 =
+                   match oc with
+                   | Some true => outer (upd e3 x x0) tr a2
+                   | Some false => Some (upd e3 x x0, a2, tr)
+                   | None => None
+                   end).
+      { unfold merged, outer, clause_body. rewrite ev_conds_app, Ec3. destruct oc as [[]|]; reflexivity. }
+      rewrite HI, !HM. destruct oc as [[]|].
+      + (* the inner conditions hold: the item is kept; merged and outer do the same step *)
+        assert (HO : match outer (upd e3 x x0) tr a2, outer (upd e2 x x0) tr a2 with
+                     | Some (f3, a3, t3), Some (f2, a2', t2) => f3 = upd e3 x x0 /\ f2 = upd e2 x x0 /\ a3 = a2' /\ t3 = t2
+                     | None, None => True
+                     | _, _ => False
+                     end).
+        { unfold outer, clause_body. rewrite (ev_conds_ext w ifs_out (upd e3 x x0) (upd e2 x x0) tr (upd_ext e3 e2 x0 H3 H2)).
+          destruct (ev_conds (eval w) (upd e2 x x0) ifs_out tr) as [[[] tr1]|]; [| repeat split; reflexivity | exact I].
+          pose proof (outer_step_ext (upd e2 x x0) (upd e3 x x0) tr1 a2 (upd_ext e2 e3 x0 H2 H3)) as Hs.
+          destruct (leaf_of (eval w) k elt dval (upd e2 x x0) tr1 a2) as [[[f2 b2] t2]|],
+                   (leaf_of (eval w) k elt dval (upd e3 x x0) tr1 a2) as [[[f3 b3] t3]|]; try contradiction; [|exact I].
+          destruct Hs as [-> [-> [-> ->]]]. repeat split; reflexivity. }
+        destruct (outer (upd e3 x x0) tr a2) as [[[f3 a3] t3]|] eqn:O3,
+                 (outer (upd e2 x x0) tr a2) as [[[f2 a2'] t2]|] eqn:O2; try contradiction.
+        * destruct HO as [-> [-> [-> ->]]].
+          pose proof (IH (upd e1 x x0) (upd e2 x x0) (upd e3 x x0) tI t2 (a1 ++ [x0]) a2'
+                         (off_x_upd _ _ H1) (off_x_upd _ _ H2) (off_x_upd _ _ H3)) as IH'.
+          destruct (iter_items inner (TName x) xs (upd e1 x x0) tI (a1 ++ [x0])) as [[[g1 b1] u1]|]; [|exact IH'].
+          destruct IH' as [-> [ys [-> Hr]]]. split; [reflexivity|]. exists (x0 :: ys). rewrite <- app_assoc.
+          split; [reflexivity|]. cbn [iter_items bind]. rewrite O2. exact Hr.
+        * pose proof (IH (upd e1 x x0) (upd e2 x x0) (upd e3 x x0) tI tr (a1 ++ [x0]) a2
+                         (off_x_upd _ _ H1) (off_x_upd _ _ H2) (off_x_upd _ _ H3)) as IH'.
+          destruct (iter_items inner (TName x) xs (upd e1 x x0) tI (a1 ++ [x0])) as [[[g1 b1] u1]|]; [|reflexivity].
+          destruct IH' as [-> [ys [-> _]]]. split; [reflexivity|]. exists (x0 :: ys). rewrite <- app_assoc.
+          split; [reflexivity|]. cbn [iter_items bind]. rewrite O2. exact I.
+      + (* an inner condition is false: the item is dropped on both sides *)
+        apply (IH (upd e1 x x0) e2 (upd e3 x x0) tI tr a1 a2 (off_x_upd _ _ H1) H2 (off_x_upd _ _ H3)).
+      + reflexivity.
+  Qed.
+End Chained.
+
+Definition chained_guard (e : cx) : bool :=
+  match e with
+  | XComp k _ _ [XGen (TName _) (XComp _ _ _ [XGen _ _ ifs_in]) _] =>
+      (match k with CList | CGen => true | _ => false end) && forallb (fun c => negb (effect c)) ifs_in
+  | _ => false
+  end.
+
+Theorem chained_partial : forall w e e' en tr,
+  rw_chained e = Some e' -> chained_guard e = true -> eval w e' en tr = eval w e en tr.
+Proof.
+  intros w e e' en tr H G. unfold rw_chained in H. unfold chained_guard in G.
+  destruct e as [| | | | | | | | | | k elt dval gens | | | | |]; try discriminate.
+  destruct gens as [|g [|? ?]]; try discriminate; [| exfalso; clear H; repeat match type of G with context [match ?v with _ => _ end] => destruct v; try discriminate end].
+  destruct g as [| | | | | | | | | | | t inner ifs_out | | | |]; try discriminate.
+  destruct t as [x|]; [|discriminate].
+  destruct inner as [| | | | | | | | | | k' elt' dv' gens' | | | | |]; try (destruct k; discriminate).
+  destruct gens' as [|g' [|? ?]]; try (destruct k; discriminate); [| exfalso; clear H; repeat match type of G with context [match ?v with _ => _ end] => destruct v; try discriminate end].
+  destruct g' as [| | | | | | | | | | | t' it ifs_in | | | |]; try (destruct k; discriminate).
+  apply andb_true_iff in G as [Gk Hpure].
+  assert (Hk : k <> CDict) by (intros ->; discriminate).
+  destruct (ckind_eqb k k' && tgt_eqb (TName x) t' && tgt_expr_same (TName x) elt') eqn:C; [|destruct k; discriminate].
+  assert (He' : e' = XComp k elt dval [XGen (TName x) it (ifs_in ++ ifs_out)]) by (destruct k; inversion H; reflexivity).
+  subst e'. clear H.
+  apply andb_true_iff in C as [C C3]. apply andb_true_iff in C as [C1 C2].
+  assert (k' = k) by (destruct k, k'; try discriminate; reflexivity). subst k'.
+  destruct t' as [x'|]; [|discriminate]. cbn [tgt_eqb] in C2. apply Nat.eqb_eq in C2. subst x'.
+  destruct elt'; try discriminate. cbn [tgt_expr_same] in C3. apply Nat.eqb_eq in C3. subst x0.
+  (* both sides start with the iterable *)
+  cbn [eval gens_targets tnames app]. rewrite !run_gens_nil.
+  destruct (eval w it en tr) as [[v tr1]|]; [|reflexivity]. destruct (items_of v) as [xs|]; [|reflexivity].
+  set (base := mask [x] en).
+  pose proof (chained_items w k x elt dval dv' ifs_in ifs_out base Hk Hpure xs base base base tr1 tr1 [] []
+                (fun y _ => eq_refl) (fun y _ => eq_refl) (fun y _ => eq_refl)) as L.
+  destruct (iter_items (clause_body (eval w) ifs_in (leaf_of (eval w) k (XName x) dv')) (TName x) xs base tr1 [])
+    as [[[g1 ys] t']|].
+  - destruct L as [-> [ys' [Hys R]]]. cbn [app] in Hys. subst ys'.
+    assert (Hf : exists r, finish k ys = Some r /\ items_of r = Some ys) by (destruct k; try discriminate; eexists; split; reflexivity).
+    destruct Hf as [r [Hf1 Hf2]]. rewrite Hf1, Hf2. unfold res_eq in R.
+    destruct (iter_items (clause_body (eval w) (ifs_in ++ ifs_out) (leaf_of (eval w) k elt dval)) (TName x) xs base tr1 [])
+      as [[[g3 a3] t3]|],
+      (iter_items (clause_body (eval w) ifs_out (leaf_of (eval w) k elt dval)) (TName x) ys base tr1 [])
+      as [[[g2 a2] t2]|]; try contradiction; [|reflexivity].
+    destruct R as [-> ->]. reflexivity.
+  - rewrite L. reflexivity.
+Qed.
+
+Example chained_guard_example :
+  let e := XComp CList (XCall 0 [XName 2]) dummy
+             [XGen (TName 2) (XComp CList (XName 2) dummy [XGen (TName 2) (XName 8) [XName 2; XNot (XName 3)]])
+                [XCall 4 [XName 2]]] in
+  chained_guard e = true
+  /\ rw_chained e = Some (XComp CList (XCall 0 [XName 2]) dummy
+                            [XGen (TName 2) (XName 8) [XName 2; XNot (XName 3); XCall 4 [XName 2]]]).
+Proof. split; reflexivity. Qed.
+
+(* merge_nested_comprehensions, where it needs no renaming (the inner target has the name of the outer one,
+   one inner clause, same kind): the result is that of merge_chained_comps *)
+Lemma map_id_Forall : forall (f : cx -> cx) l, Forall (fun a => f a = a) l -> map f l = l.
+Proof. intros f l H. induction H as [|a l Ha _ IH]; [reflexivity|]. cbn [map]. rewrite Ha, IH. reflexivity. Qed.
+
+Lemma rename_same : forall x e, rename x x e = e.
+Proof.
+  intros x e. induction e using cx_ind'; cbn [rename]; try reflexivity;
+    try (rewrite (map_id_Forall _ _ H); reflexivity).
+  - destruct (Nat.eqb x0 x) eqn:E; [apply Nat.eqb_eq in E; subst; reflexivity | reflexivity].
+  - rewrite IHe1, IHe2. reflexivity.
+  - rewrite IHe. reflexivity.
+  - rewrite IHe. reflexivity.
+  - rewrite IHe1, IHe2, (map_id_Forall _ _ H). reflexivity.
+  - rewrite IHe, (map_id_Forall _ _ H). f_equal. destruct t as [n|ns]; cbn [ren_t].
+    + destruct (Nat.eqb n x) eqn:E; [apply Nat.eqb_eq in E; subst; reflexivity | reflexivity].
+    + f_equal. induction ns as [|n ns IHn]; [reflexivity|]. cbn [map]. rewrite IHn.
+      destruct (Nat.eqb n x) eqn:E; [apply Nat.eqb_eq in E; subst; reflexivity | reflexivity].
+  - rewrite IHe1, IHe2. reflexivity.
+  - rewrite IHe1, IHe2. reflexivity.
+  - rewrite IHe1, IHe2. reflexivity.
+  - rewrite IHe. reflexivity.
+Qed.
+
+Definition nested_guard_same (e : cx) : bool :=
+  match e with
+  | XComp k _ _ [XGen (TName x) (XComp k' (XName y) _ [XGen (TName y') it ifs_in]) []] =>
+      Nat.eqb x y && Nat.eqb y y' && ckind_eqb k k'
+      && (match k with CList | CGen => true | _ => false end)
+      && forallb (fun c => negb (effect c)) ifs_in
+  | _ => false
+  end.
+
+Theorem nested_partial : forall w e e' en tr,
+  rw_nested e = Some e' -> nested_guard_same e = true -> eval w e' en tr = eval w e en tr.
+Proof.
+  intros w e e' en tr H G. unfold nested_guard_same in G.
+  destruct e as [| | | | | | | | | | k elt dval gens | | | | |]; try discriminate.
+  destruct gens as [|g [|? ?]]; try discriminate;
+    [| exfalso; clear H; repeat match type of G with context [match ?v with _ => _ end] => destruct v; try discriminate end].
+  destruct g as [| | | | | | | | | | | t inner ifs_out | | | |]; try discriminate.
+  destruct t as [x|]; [|discriminate].
+  destruct inner as [| | | | | | | | | | k' elt' dv' gens' | | | | |]; try discriminate.
+  destruct elt' as [|y| | | | | | | | | | | | | |]; try discriminate.
+  destruct gens' as [|g' [|? ?]]; try discriminate;
+    [| exfalso; clear H; repeat match type of G with context [match ?v with _ => _ end] => destruct v; try discriminate end].
+  destruct g' as [| | | | | | | | | | | t' it ifs_in | | | |]; try discriminate.
+  destruct t' as [y'|]; [|discriminate]. destruct ifs_out; [|discriminate].
+  apply andb_true_iff in G as [G Hpure]. apply andb_true_iff in G as [G Gk]. apply andb_true_iff in G as [G Gkk].
+  apply andb_true_iff in G as [G1 G2]. apply Nat.eqb_eq in G1. apply Nat.eqb_eq in G2. subst y y'.
+  assert (k' = k) by (destruct k, k'; try discriminate; reflexivity). subst k'.
+  (* what the model of merge_nested_comprehensions yields here *)
+  assert (Hm : e' = XComp k elt dval [XGen (TName x) it ifs_in] \/ False).
+  { unfold rw_nested in H. cbn [merge_gens merge_clause app] in H. unfold last_target_is in H. cbn [rev app] in H.
+    rewrite Nat.eqb_refl in H. cbn [negb] in H.
+    destruct k; try discriminate; cbn [gens_targets tnames app existsb negb andb first_iter] in H;
+      rewrite ?Nat.eqb_refl in H; cbn [negb andb orb] in H;
+      destruct (mentions x it); cbn [orb] in H; try discriminate;
+      cbn [map] in H; rewrite rename_same in H; cbn [app] in H; inversion H; left; reflexivity. }
+  destruct Hm as [->|[]].
+  rewrite <- (chained_partial w (XComp k elt dval [XGen (TName x) (XComp k (XName x) dv' [XGen (TName x) it ifs_in]) []])
+                (XComp k elt dval [XGen (TName x) it (ifs_in ++ [])]) en tr).
+  - rewrite app_nil_r. reflexivity.
+  - unfold rw_chained. cbn [ckind_eqb tgt_eqb tgt_expr_same]. rewrite Nat.eqb_refl.
+    destruct k; try discriminate; reflexivity.
+  - unfold chained_guard. rewrite Hpure. destruct k; try discriminate; reflexivity.
+Qed.
+
+Example nested_guard_same_example :
+  let e := XComp CList (XCall 0 [XName 2]) dummy
+             [XGen (TName 2) (XComp CList (XName 2) dummy [XGen (TName 2) (XName 8) [XNot (XName 2)]]) []] in
+  nested_guard_same e = true
+  /\ rw_nested e = Some (XComp CList (XCall 0 [XName 2]) dummy [XGen (TName 2) (XName 8) [XNot (XName 2)]]).
+Proof. split; reflexivity. Qed.
